@@ -103,3 +103,44 @@ func (pool *TxPool) VerifC17JournalRotate(path string) error {
 	}
 	return j.close()
 }
+
+// VerifC17Step is one critical section of a coalesced round: either the locked section of a
+// submission (the pool's own addTxsLocked) or a head-reset request.
+type VerifC17Step struct {
+	Txs   []*types.Transaction
+	Local bool
+	Reset bool
+}
+
+// VerifC17Coalesced drives the pool's real scheduleReorgLoop into its coalescing branch: it takes
+// pool.mu, requests a reorg run with an empty account set (the loop launches that run at once; it
+// blocks on the lock held here, exactly as a run blocks behind a submission's locked section), and
+// then executes the given critical sections, each followed by its own request to the loop
+// (requestPromoteExecutables / requestReset). Because a run is in flight, the loop merges all these
+// requests into ONE following run. The lock is then released: the blocked run executes (with its
+// stale, empty account set), the loop launches the merged run, and the call returns when that run
+// is done. Only the pool's own functions run; nothing here judges anything.
+func (pool *TxPool) VerifC17Coalesced(steps []VerifC17Step) [][]error {
+	var errs [][]error
+	pool.mu.Lock()
+	first := pool.requestPromoteExecutables(newAccountSet(pool.signer))
+	var last chan struct{}
+	func() {
+		defer pool.mu.Unlock()
+		for _, st := range steps {
+			if st.Reset {
+				last = pool.requestReset(nil, nil)
+				errs = append(errs, nil)
+				continue
+			}
+			es, dirty := pool.addTxsLocked(st.Txs, st.Local && !pool.config.NoLocals)
+			errs = append(errs, es)
+			last = pool.requestPromoteExecutables(dirty)
+		}
+	}()
+	<-first
+	if last != nil {
+		<-last
+	}
+	return errs
+}
